@@ -1010,8 +1010,8 @@ class Fxp():
             # rounding and overflowing
             new_val_real = self._round(new_val_real * conv_factor, method=self.config.rounding)
             new_val_imag = self._round(new_val_imag * conv_factor, method=self.config.rounding)
-            new_val_real = self._overflow_action(new_val_real, val_min, val_max)
-            new_val_imag = self._overflow_action(new_val_imag, val_min, val_max)
+            new_val_real = self._overflow_action(new_val_real, val_min, val_max, also=new_val_imag)
+            new_val_imag = self._overflow_action(new_val_imag, val_min, val_max, notify=False)
 
             # convert to array of val_dtype
             new_val_real = new_val_real.astype(val_dtype)
@@ -1223,11 +1223,12 @@ class Fxp():
 
     # behaviors
 
-    def _overflow_action(self, new_val, val_min, val_max):
-        if np.any(new_val > val_max):
+    def _overflow_action(self, new_val, val_min, val_max, also=None, notify=True):
+        # (`also`: the other component of a complex value; both belong to one write, which is notified once)
+        if notify and (np.any(new_val > val_max) or (also is not None and np.any(also > val_max))):
             self.status['overflow'] = True
             self._run_callbacks('on_status_overflow')
-        if np.any(new_val < val_min):
+        if notify and (np.any(new_val < val_min) or (also is not None and np.any(also < val_min))):
             self.status['underflow'] = True
             self._run_callbacks('on_status_underflow')
         
